@@ -150,7 +150,20 @@ class C02(Prop):
         head = b"h" * 74
         return [head + b"|"[:0] + x + b"|" for x in (b"", b"a", b"b", b"a" * 73 + b"z", b"a" * 74, b"a" * 75)] + []
 
+    def extreme(self, ctx):
+        """fixed extreme inputs: an LRU 300 stems deep, a stem of 40 blocks, the first byte values around '|'"""
+        case = Case(self, ctx, Config(backend="memory"), None)
+        try:
+            case.step(("page", b"r|" + b"d|" * 300, False))
+            case.step(("page", b"r|" + b"x" * 2960 + b"|" + b"y|", True))
+            case.step(("pages", [b"r|" + bytes([c]) + b"|" for c in (0x00, 0x7B, 0x7D, 0x7E, 0xFF, 0x0A)], False))
+            ctx.extra["extreme_inputs"] += 1
+        finally:
+            case.abort()
+
     def extra_checks(self, ctx, tier, seed, shard, nshards):
+        if shard == 3 % nshards:
+            self.extreme(ctx)
         # 6 sibling stems: first 74 bytes equal ("hhh...h"), total lengths 75,76,76,149,150,151 (with '|'), minus one
         head = b"h" * 73
         six = [head + b"|",                      # 74 bytes: exactly one block
